@@ -128,6 +128,32 @@ fn add_typed(b: &mut NB, shape: (usize, usize), name: String, uninit: bool) -> R
     }
 }
 
+/// override entry point with a typed base: only the flag is overridden, name / size / alignment are the
+/// resolver's answers for the marker type (whose host size is 0 and host alignment 1)
+fn add_partial_override(b: &mut NB, shape: (usize, usize), name: String, uninit: bool) -> Result<DatumId, String> {
+    let ov = DatumDefinitionOverride { type_name: None, size: None, align: None, allow_uninit: Some(uninit) };
+    macro_rules! go {
+        ($s:literal, $a:literal) => {
+            b.add_datum_override::<Ty<$s, $a>, _>(name, ov)
+        };
+    }
+    match shape {
+        (0, 1) => go!(0, 1),
+        (0, 8) => go!(0, 8),
+        (1, 1) => go!(1, 1),
+        (3, 1) => go!(3, 1),
+        (2, 2) => go!(2, 2),
+        (4, 4) => go!(4, 4),
+        (12, 4) => go!(12, 4),
+        (8, 8) => go!(8, 8),
+        (24, 8) => go!(24, 8),
+        (16, 16) => go!(16, 16),
+        (6, 2) => go!(6, 2),
+        (5, 1) => go!(5, 1),
+        _ => unreachable!(),
+    }
+}
+
 // ------------------------------------------------------------------ requests
 
 #[derive(Clone, Debug, PartialEq)]
@@ -323,9 +349,10 @@ fn apply(b: &mut NB, scratch_res: &SynthResolver, r: &Req) -> Vec<u64> {
             let nm = format!("f{}", name);
             let shape = (*size as usize, *align as usize);
             let tyn = format!("S{}A{}", size, align);
-            let entry = if *entry == 0 && !TYPED.contains(&shape) { 2 } else { *entry };
+            let entry = if (*entry == 0 || *entry == 4) && !TYPED.contains(&shape) { 2 } else { *entry };
             let res = match entry {
                 0 => add_typed(b, shape, nm, *uninit),
+                4 => add_partial_override(b, shape, nm, *uninit),
                 1 => b.add_dynamic_datum(nm, if *uninit { format!("{}U", tyn) } else { tyn }),
                 2 => b.add_datum_override::<(), _>(
                     nm,
@@ -960,7 +987,7 @@ fn gen_history(rng: &mut Rng, long: bool) -> Vec<Req> {
                     next_name += 1;
                     next_name - 1
                 };
-                h.push(Req::Add { name, size: s, align: a, uninit: rng.chance(25), entry: rng.below(4) as u8 });
+                h.push(Req::Add { name, size: s, align: a, uninit: rng.chance(25), entry: rng.below(5) as u8 });
                 cur.push((next_id, name));
                 pending.push(next_id);
                 next_id += 1;
@@ -1131,11 +1158,11 @@ fn main() {
         // the same observations: the layout depends on the resolver's answers only
         let mut c18 = Vec::new();
         if h.iter().any(|r| matches!(r, Req::Add { .. })) {
-            let rot = 1 + (k % 3) as u8;
+            let rot = 1 + (k % 4) as u8;
             let h2: Vec<Req> = h
                 .iter()
                 .map(|r| match r {
-                    Req::Add { name, size, align, uninit, entry } => Req::Add { name: *name, size: *size, align: *align, uninit: *uninit, entry: (*entry + rot) % 4 },
+                    Req::Add { name, size, align, uninit, entry } => Req::Add { name: *name, size: *size, align: *align, uninit: *uninit, entry: (*entry + rot) % 5 },
                     x => x.clone(),
                 })
                 .collect();
